@@ -148,7 +148,12 @@ def gen_script(rng, solvers=L.SOLVERS, nops=(3, 9), p_mid=0.5, allow_modes=False
             elif m == "pen":
                 ops.append(dict(op="SetPenalty", pen=gen_pen(rng)))
             elif m == "cons" and constraints:
-                ops.append(dict(op="SetConstraints", cons=gen_cons(rng, ndim, box)))
+                cb = box
+                if cb is None:      # a box installed mid-run (below) is the one the new constraints have to respect
+                    inst = [o for o in ops if o["op"] == "SetStrictRanges" and o["lo"] is not None]
+                    if inst and all(v not in (INF, -INF) for v in inst[-1]["lo"] + inst[-1]["hi"]):
+                        cb = (inst[-1]["lo"], inst[-1]["hi"])
+                ops.append(dict(op="SetConstraints", cons=gen_cons(rng, ndim, cb)))
             elif m == "box":
                 last = [o for o in ops if o["op"] == "SetStrictRanges" and o["lo"] is not None]
                 if last and rng.random() < 0.35:
